@@ -152,7 +152,8 @@ EvalBGP(tps, i, G, Om) == IF i > Len(tps) THEN Om
 
 (* ---- variables in scope for SELECT-star -------------------------------------------------------- *)
 RECURSIVE VarsOfGroup(_)
-VarsOfTP(tp) == {tp[i].v : i \in {j \in 1..3 : IsVar(tp[j])}}
+\* (a blank node in a pattern is a variable that is not in scope for projection: the AST marks it [k "var", v name, hidden TRUE])
+VarsOfTP(tp) == {tp[i].v : i \in {j \in 1..3 : IsVar(tp[j]) /\ "hidden" \notin DOMAIN tp[j]}}
 VarsOfElt(e) ==
   CASE e.t = "bgp"      -> UNION {VarsOfTP(e.tps[i]) : i \in 1..Len(e.tps)}
     [] e.t \in {"group", "optional"} -> VarsOfGroup(e.g)
@@ -246,6 +247,9 @@ RowBefore(keys, i, m1, m2, c) ==
 (* R is a valid ORDER BY arrangement: no later row must precede an earlier one *)
 OrderedOK(R, keys, c) == \A i \in 1..Len(R) : \A j \in (i + 1)..Len(R) : ~RowBefore(keys, 1, R[j], R[i], c)
 
+(* the lexical form of a literal, where the model has one *)
+HasLex(x) == x.k \in {"str", "num", "bool"} \/ (x.k = "lit" /\ "lang" \in DOMAIN x)
+LexOf(x) == CASE x.k = "num" -> ToString(x.v) [] x.k = "bool" -> (IF x.v THEN "true" ELSE "false") [] OTHER -> x.v
 (* aggregates *)
 RECURSIVE JoinStr(_, _)
 JoinStr(ss, sep) == IF Len(ss) = 1 THEN ss[1] ELSE ss[1] \o sep \o JoinStr(Tail(ss), sep)
@@ -273,12 +277,13 @@ AggOK(a, grp, c, x) ==
                          ELSE LET vs == AggVals(a, grp, c) IN
                               IF vs = <<>> THEN x = NumV(0) \/ (x.k = "dec" /\ x.n = 0)
                               ELSE (x.k = "num" /\ x.v * Len(vs) = SumSeq(vs)) \/ (x.k = "dec" /\ x.d > 0 /\ x.n * Len(vs) = SumSeq(vs) * x.d)
-    \* GROUP_CONCAT: some permutation of the string values joined by the separator (only judged when all values are strings)
+    \* GROUP_CONCAT: some permutation of the lexical forms of the values (DISTINCT removes equal TERMS, not equal lexical forms) joined by
+    \* the separator; judged when every value is a literal whose lexical form the model knows (strings, language-tagged strings, integers, booleans)
     [] a.f = "group_concat" ->
          LET vs == AggVals(a, grp, c) IN
-         IF \E i \in 1..Len(vs) : vs[i].k # "str" THEN TRUE
+         IF \E i \in 1..Len(vs) : ~HasLex(vs[i]) THEN TRUE
          ELSE IF vs = <<>> THEN x = [k |-> "str", v |-> ""]
-         ELSE x.k = "str" /\ \E f \in Permutations(1..Len(vs)) : x.v = JoinStr([i \in 1..Len(vs) |-> vs[f[i]].v], a.sep)
+         ELSE x.k = "str" /\ \E f \in Permutations(1..Len(vs)) : x.v = JoinStr([i \in 1..Len(vs) |-> LexOf(vs[f[i]])], a.sep)
     [] OTHER -> TRUE
 GroupKey(keys, mu, c) == [i \in 1..Len(keys) |-> EvalExpr(keys[i], mu, c)]
 Groups(Om, keys, c) ==     \* set of groups (each a sequence); implicit single group when keys = <<>>
